@@ -324,6 +324,27 @@ def run(ctx):
         else:
             st["agreed"] += 1
             st["hist"]["option_word_in_query"] += 1
+    # an argument-less function written bare, with `()` and with `{}` directly next to an arithmetic symbol (no blanks): the same value
+    gl = []
+    for fn_, rest in (("rand", "*0"), ("random", "*0"), ("rand", "-rand"), ("curdate", "-1"), ("rand", "%1"), ("rand", "/1*0")):
+        forms = ["%s%s" % (fn_, rest), "%s()%s" % (fn_, rest), "%s{}%s" % (fn_, rest), "%s %s" % (fn_, rest), "%s() %s %s" % (fn_, rest[0], rest[1:])]
+        for f_ in forms[1:]:
+            gl.append((["name, %s from t order by name" % forms[0]], ["name, %s from t order by name" % f_], "argless-glued:" + f_))
+        if rest != "-rand":          # (a difference of two random numbers is not comparable between runs)
+          gl.append((["name from t where size + %s%s >= 5 order by name" % (fn_, rest)], ["name from t where size + %s()%s >= 5 order by name" % (fn_, rest)], "argless-glued-where:" + fn_))
+    gl = [x for x in gl if "curdate" not in x[0][0] or True]
+    for (c, v, d), a, b in pmap(one, gl):
+        nrows += 1
+        if "rand-rand" in c[0] or "rand()-rand" in v[0] or "rand{}-rand" in v[0] or "rand -rand" in v[0] or "rand() - rand" in v[0]:
+            same = a["status"] == b["status"] and len(a["stdout"].split(b"\n")) == len(b["stdout"].split(b"\n"))       # random values: only the shape is comparable
+        else:
+            same = (a["status"], a["stdout"]) == (b["status"], b["stdout"])
+        if not same:
+            ctx.violation("impl-violates-spec", "an argument-less function next to an arithmetic symbol means something else bare than with its brackets (%s)" % d,
+                          input={"canonical_argv": c, "variant_argv": v}, observed=b["stdout"][:200], expected=a["stdout"][:200])
+        else:
+            st["agreed"] += 1
+            st["hist"]["argless_glued"] += 1
     # recorded finding F23 (argument splitting around the search root)
     for k in load_known():
         if k["property"] == "C11" and k["status"] == "known":
@@ -334,6 +355,6 @@ def run(ctx):
                 ctx.notes.append("%s: witness no longer fails; update KNOWN_FINDINGS.json" % k["id"])
     ctx.coverage.update(
         evaluations=len(cases) + nrows, distinct_nontrivial=len(st["distinct"]), traces_validated_against_impl=st["agreed"],
-        rule="valid queries from a typed generator (1-4 columns incl. functions/arithmetic, or aggregates with count(*) in either bracket style, root options (after FROM, or directly after the columns in a query without FROM), WHERE with all operator kinds, brackets, GROUP BY (directly after the root options and after WHERE), ORDER BY, LIMIT, INTO) x renderings: with and without the leading `select` (always, and always run on the binary), split at every whitespace, random split sets (keeping the search root alone in its argument, see F23), EVERY alias of every aliased token one at a time (alias groups read from the regenerated Field / Function / Op / arithmetic tables), a case variant of every word, the other bracket style, every alias of the safe columns and of several functions as the first word of the command line with and without `select`; queries that mention the program's option words (help, version, nocolor, -h ...) in a literal, a root or a column, as one argument and split; optional tokens (select, commas, asc, () after an argument-less function) and random mixtures; the parsed Query of the real parser must be identical to that of the canonical rendering, and (sampled) the binary's output identical. non-trivial = a rendering that differs textually from the canonical one",
+        rule="valid queries from a typed generator (1-4 columns incl. functions/arithmetic, or aggregates with count(*) in either bracket style, root options (after FROM, or directly after the columns in a query without FROM), WHERE with all operator kinds, brackets, GROUP BY (directly after the root options and after WHERE), ORDER BY, LIMIT, INTO) x renderings: with and without the leading `select` (always, and always run on the binary), split at every whitespace, random split sets (keeping the search root alone in its argument, see F23), EVERY alias of every aliased token one at a time (alias groups read from the regenerated Field / Function / Op / arithmetic tables), a case variant of every word, the other bracket style, every alias of the safe columns and of several functions as the first word of the command line with and without `select`; argument-less functions bare / with `()` / with `{}` glued to an arithmetic symbol; queries that mention the program's option words (help, version, nocolor, -h ...) in a literal, a root or a column, as one argument and split; optional tokens (select, commas, asc, () after an argument-less function) and random mixtures; the parsed Query of the real parser must be identical to that of the canonical rendering, and (sampled) the binary's output identical. non-trivial = a rendering that differs textually from the canonical one",
         samples=st["samples"], distribution=dict(st["hist"]))
     return ctx.finish(trusted=["the alias groups are the ones the source's own lookup tables define (regenerated on this run); docs/usage.md is compared with them in props/C11.v"])
